@@ -9207,6 +9207,454 @@ let rec kf_c20_go fuel s =
 let kf_c20 s =
   kf_c20_go (length s) s
 
+type akind =
+| KIgnore
+| KPrint
+| KExecute
+| KCollect
+| KParam
+| KEscDispatch
+| KCsiDispatch
+| KPut
+| KOscPut
+
+type trans = { t_next : pstate; t_kind : akind; t_clear : bool }
+
+(** val inr : n -> n -> n -> bool **)
+
+let inr lo hi c =
+  (&&) (N.leb lo c) (N.leb c hi)
+
+(** val c0_exec : n -> bool **)
+
+let c0_exec c =
+  (||)
+    ((||) (inr N0 (Npos (XI (XI (XI (XO XH))))) c)
+      (N.eqb c (Npos (XI (XO (XO (XI XH)))))))
+    (inr (Npos (XO (XO (XI (XI XH))))) (Npos (XI (XI (XI (XI XH))))) c)
+
+(** val entry_clears : pstate -> bool **)
+
+let entry_clears = function
+| Escape -> true
+| CsiEntry -> true
+| DcsEntry -> true
+| _ -> false
+
+(** val goto : pstate -> akind -> trans **)
+
+let goto s k =
+  { t_next = s; t_kind = k; t_clear = (entry_clears s) }
+
+(** val stay : pstate -> akind -> trans **)
+
+let stay s k =
+  { t_next = s; t_kind = k; t_clear = false }
+
+(** val anywhere : n -> trans option **)
+
+let anywhere c =
+  if (||) (N.eqb c (Npos (XO (XO (XO (XI XH))))))
+       (N.eqb c (Npos (XO (XI (XO (XI XH))))))
+  then Some (goto Ground KExecute)
+  else if N.eqb c (Npos (XI (XI (XO (XI XH)))))
+       then Some (goto Escape KIgnore)
+       else if (||)
+                 ((||)
+                   ((||)
+                     (inr (Npos (XO (XO (XO (XO (XO (XO (XO XH)))))))) (Npos
+                       (XI (XI (XI (XI (XO (XO (XO XH)))))))) c)
+                     (inr (Npos (XI (XO (XO (XO (XI (XO (XO XH)))))))) (Npos
+                       (XI (XI (XI (XO (XI (XO (XO XH)))))))) c))
+                   (N.eqb c (Npos (XI (XO (XO (XI (XI (XO (XO XH))))))))))
+                 (N.eqb c (Npos (XO (XI (XO (XI (XI (XO (XO XH)))))))))
+            then Some (goto Ground KExecute)
+            else if N.eqb c (Npos (XO (XO (XI (XI (XI (XO (XO XH))))))))
+                 then Some (goto Ground KIgnore)
+                 else if (||)
+                           ((||)
+                             (N.eqb c (Npos (XO (XO (XO (XI (XI (XO (XO
+                               XH)))))))))
+                             (N.eqb c (Npos (XO (XI (XI (XI (XI (XO (XO
+                               XH))))))))))
+                           (N.eqb c (Npos (XI (XI (XI (XI (XI (XO (XO
+                             XH)))))))))
+                      then Some (goto SosPmApcString KIgnore)
+                      else if N.eqb c (Npos (XO (XO (XO (XO (XI (XO (XO
+                                XH))))))))
+                           then Some (goto DcsEntry KIgnore)
+                           else if N.eqb c (Npos (XI (XO (XI (XI (XI (XO (XO
+                                     XH))))))))
+                                then Some (goto OscString KIgnore)
+                                else if N.eqb c (Npos (XI (XI (XO (XI (XI (XO
+                                          (XO XH))))))))
+                                     then Some (goto CsiEntry KIgnore)
+                                     else None
+
+(** val csi_param_char : n -> bool **)
+
+let csi_param_char c =
+  (||)
+    ((||)
+      (inr (Npos (XO (XO (XO (XO (XI XH)))))) (Npos (XI (XO (XO (XI (XI
+        XH)))))) c) (N.eqb c (Npos (XI (XI (XO (XI (XI XH))))))))
+    (N.eqb c (Npos (XO (XI (XO (XI (XI XH)))))))
+
+(** val osc_bel_terminates : bool **)
+
+let osc_bel_terminates =
+  true
+
+(** val state_row : pstate -> n -> trans **)
+
+let state_row s c =
+  match s with
+  | Ground ->
+    if c0_exec c
+    then stay Ground KExecute
+    else if inr (Npos (XO (XO (XO (XO (XO XH)))))) (Npos (XI (XI (XI (XI (XI
+              (XI XH))))))) c
+         then stay Ground KPrint
+         else stay Ground KIgnore
+  | Escape ->
+    if c0_exec c
+    then stay Escape KExecute
+    else if inr (Npos (XO (XO (XO (XO (XO XH)))))) (Npos (XI (XI (XI (XI (XO
+              XH)))))) c
+         then goto EscapeIntermediate KCollect
+         else if N.eqb c (Npos (XI (XI (XO (XI (XI (XO XH)))))))
+              then goto CsiEntry KIgnore
+              else if N.eqb c (Npos (XI (XO (XI (XI (XI (XO XH)))))))
+                   then goto OscString KIgnore
+                   else if N.eqb c (Npos (XO (XO (XO (XO (XI (XO XH)))))))
+                        then goto DcsEntry KIgnore
+                        else if (||)
+                                  ((||)
+                                    (N.eqb c (Npos (XO (XO (XO (XI (XI (XO
+                                      XH))))))))
+                                    (N.eqb c (Npos (XO (XI (XI (XI (XI (XO
+                                      XH)))))))))
+                                  (N.eqb c (Npos (XI (XI (XI (XI (XI (XO
+                                    XH))))))))
+                             then goto SosPmApcString KIgnore
+                             else if inr (Npos (XO (XO (XO (XO (XI XH))))))
+                                       (Npos (XO (XI (XI (XI (XI (XI
+                                       XH))))))) c
+                                  then goto Ground KEscDispatch
+                                  else stay Escape KIgnore
+  | EscapeIntermediate ->
+    if c0_exec c
+    then stay EscapeIntermediate KExecute
+    else if inr (Npos (XO (XO (XO (XO (XO XH)))))) (Npos (XI (XI (XI (XI (XO
+              XH)))))) c
+         then stay EscapeIntermediate KCollect
+         else if inr (Npos (XO (XO (XO (XO (XI XH)))))) (Npos (XO (XI (XI (XI
+                   (XI (XI XH))))))) c
+              then goto Ground KEscDispatch
+              else stay EscapeIntermediate KIgnore
+  | CsiEntry ->
+    if c0_exec c
+    then stay CsiEntry KExecute
+    else if inr (Npos (XO (XO (XO (XO (XO XH)))))) (Npos (XI (XI (XI (XI (XO
+              XH)))))) c
+         then goto CsiIntermediate KCollect
+         else if N.eqb c (Npos (XO (XI (XO (XI (XI XH))))))
+              then goto CsiIgnore KIgnore
+              else if (||)
+                        (inr (Npos (XO (XO (XO (XO (XI XH)))))) (Npos (XI (XO
+                          (XO (XI (XI XH)))))) c)
+                        (N.eqb c (Npos (XI (XI (XO (XI (XI XH)))))))
+                   then goto CsiParam KParam
+                   else if inr (Npos (XO (XO (XI (XI (XI XH)))))) (Npos (XI
+                             (XI (XI (XI (XI XH)))))) c
+                        then goto CsiParam KCollect
+                        else if inr (Npos (XO (XO (XO (XO (XO (XO XH)))))))
+                                  (Npos (XO (XI (XI (XI (XI (XI XH))))))) c
+                             then goto Ground KCsiDispatch
+                             else stay CsiEntry KIgnore
+  | CsiParam ->
+    if c0_exec c
+    then stay CsiParam KExecute
+    else if csi_param_char c
+         then stay CsiParam KParam
+         else if inr (Npos (XO (XO (XI (XI (XI XH)))))) (Npos (XI (XI (XI (XI
+                   (XI XH)))))) c
+              then goto CsiIgnore KIgnore
+              else if inr (Npos (XO (XO (XO (XO (XO XH)))))) (Npos (XI (XI
+                        (XI (XI (XO XH)))))) c
+                   then goto CsiIntermediate KCollect
+                   else if inr (Npos (XO (XO (XO (XO (XO (XO XH))))))) (Npos
+                             (XO (XI (XI (XI (XI (XI XH))))))) c
+                        then goto Ground KCsiDispatch
+                        else stay CsiParam KIgnore
+  | CsiIntermediate ->
+    if c0_exec c
+    then stay CsiIntermediate KExecute
+    else if inr (Npos (XO (XO (XO (XO (XO XH)))))) (Npos (XI (XI (XI (XI (XO
+              XH)))))) c
+         then stay CsiIntermediate KCollect
+         else if inr (Npos (XO (XO (XO (XO (XI XH)))))) (Npos (XI (XI (XI (XI
+                   (XI XH)))))) c
+              then goto CsiIgnore KIgnore
+              else if inr (Npos (XO (XO (XO (XO (XO (XO XH))))))) (Npos (XO
+                        (XI (XI (XI (XI (XI XH))))))) c
+                   then goto Ground KCsiDispatch
+                   else stay CsiIntermediate KIgnore
+  | CsiIgnore ->
+    if c0_exec c
+    then stay CsiIgnore KExecute
+    else if inr (Npos (XO (XO (XO (XO (XO (XO XH))))))) (Npos (XO (XI (XI (XI
+              (XI (XI XH))))))) c
+         then goto Ground KIgnore
+         else stay CsiIgnore KIgnore
+  | DcsEntry ->
+    if inr (Npos (XO (XO (XO (XO (XO XH)))))) (Npos (XI (XI (XI (XI (XO
+         XH)))))) c
+    then goto DcsIntermediate KCollect
+    else if N.eqb c (Npos (XO (XI (XO (XI (XI XH))))))
+         then goto DcsIgnore KIgnore
+         else if (||)
+                   (inr (Npos (XO (XO (XO (XO (XI XH)))))) (Npos (XI (XO (XO
+                     (XI (XI XH)))))) c)
+                   (N.eqb c (Npos (XI (XI (XO (XI (XI XH)))))))
+              then goto DcsParam KParam
+              else if inr (Npos (XO (XO (XI (XI (XI XH)))))) (Npos (XI (XI
+                        (XI (XI (XI XH)))))) c
+                   then goto DcsParam KCollect
+                   else if inr (Npos (XO (XO (XO (XO (XO (XO XH))))))) (Npos
+                             (XO (XI (XI (XI (XI (XI XH))))))) c
+                        then goto DcsPassthrough KIgnore
+                        else stay DcsEntry KIgnore
+  | DcsParam ->
+    if (||)
+         (inr (Npos (XO (XO (XO (XO (XI XH)))))) (Npos (XI (XO (XO (XI (XI
+           XH)))))) c) (N.eqb c (Npos (XI (XI (XO (XI (XI XH)))))))
+    then stay DcsParam KParam
+    else if (||) (N.eqb c (Npos (XO (XI (XO (XI (XI XH)))))))
+              (inr (Npos (XO (XO (XI (XI (XI XH)))))) (Npos (XI (XI (XI (XI
+                (XI XH)))))) c)
+         then goto DcsIgnore KIgnore
+         else if inr (Npos (XO (XO (XO (XO (XO XH)))))) (Npos (XI (XI (XI (XI
+                   (XO XH)))))) c
+              then goto DcsIntermediate KCollect
+              else if inr (Npos (XO (XO (XO (XO (XO (XO XH))))))) (Npos (XO
+                        (XI (XI (XI (XI (XI XH))))))) c
+                   then goto DcsPassthrough KIgnore
+                   else stay DcsParam KIgnore
+  | DcsIntermediate ->
+    if inr (Npos (XO (XO (XO (XO (XO XH)))))) (Npos (XI (XI (XI (XI (XO
+         XH)))))) c
+    then stay DcsIntermediate KCollect
+    else if inr (Npos (XO (XO (XO (XO (XI XH)))))) (Npos (XI (XI (XI (XI (XI
+              XH)))))) c
+         then goto DcsIgnore KIgnore
+         else if inr (Npos (XO (XO (XO (XO (XO (XO XH))))))) (Npos (XO (XI
+                   (XI (XI (XI (XI XH))))))) c
+              then goto DcsPassthrough KIgnore
+              else stay DcsIntermediate KIgnore
+  | DcsPassthrough ->
+    if (||) (c0_exec c)
+         (inr (Npos (XO (XO (XO (XO (XO XH)))))) (Npos (XO (XI (XI (XI (XI
+           (XI XH))))))) c)
+    then stay DcsPassthrough KPut
+    else stay DcsPassthrough KIgnore
+  | OscString ->
+    if (&&) osc_bel_terminates (N.eqb c (Npos (XI (XI XH))))
+    then goto Ground KIgnore
+    else if inr (Npos (XO (XO (XO (XO (XO XH)))))) (Npos (XI (XI (XI (XI (XI
+              (XI XH))))))) c
+         then stay OscString KOscPut
+         else stay OscString KIgnore
+  | x -> stay x KIgnore
+
+(** val fold_high : n -> n **)
+
+let fold_high c =
+  if N.leb (Npos (XO (XO (XO (XO (XO (XI (XO XH)))))))) c
+  then Npos (XI (XO (XO (XO (XO (XO XH))))))
+  else c
+
+(** val williams : pstate -> n -> trans **)
+
+let williams s c =
+  let c0 = fold_high c in
+  (match anywhere c0 with
+   | Some t -> t
+   | None -> state_row s c0)
+
+(** val c0c1_table : (n * func) list **)
+
+let c0c1_table =
+  ((Npos (XO (XO (XO XH)))), Bs) :: (((Npos (XI (XO (XO XH)))),
+    Ht) :: (((Npos (XO (XI (XO XH)))), Lf) :: (((Npos (XI (XI (XO XH)))),
+    Lf) :: (((Npos (XO (XO (XI XH)))), Lf) :: (((Npos (XI (XO (XI XH)))),
+    Cr) :: (((Npos (XO (XI (XI XH)))), So) :: (((Npos (XI (XI (XI XH)))),
+    Si) :: (((Npos (XO (XO (XI (XO (XO (XO (XO XH)))))))), Lf) :: (((Npos (XI
+    (XO (XI (XO (XO (XO (XO XH)))))))), Nel) :: (((Npos (XO (XO (XO (XI (XO
+    (XO (XO XH)))))))), Hts) :: (((Npos (XI (XO (XI (XI (XO (XO (XO
+    XH)))))))), Ri) :: [])))))))))))
+
+(** val assoc_N : n -> (n * 'a1) list -> 'a1 option **)
+
+let rec assoc_N k = function
+| [] -> None
+| p :: r -> let (k', v) = p in if N.eqb k k' then Some v else assoc_N k r
+
+(** val execute_spec : n -> func option **)
+
+let execute_spec c =
+  assoc_N c c0c1_table
+
+(** val ansi_mode_spec : n -> ansi_mode option **)
+
+let ansi_mode_spec v =
+  assoc_N v (((Npos (XO (XO XH))), Insert) :: (((Npos (XO (XO (XI (XO
+    XH))))), NewLine) :: []))
+
+(** val dec_mode_spec : n -> dec_mode option **)
+
+let dec_mode_spec v =
+  assoc_N v (((Npos XH), CursorKeys) :: (((Npos (XO (XI XH))),
+    Origin) :: (((Npos (XI (XI XH))), AutoWrap) :: (((Npos (XI (XO (XO (XI
+    XH))))), TextCursorEnable) :: (((Npos (XI (XI (XI (XI (XO XH)))))),
+    AltScreenBuffer) :: (((Npos (XI (XI (XI (XO (XI (XO (XO (XO (XO (XO
+    XH))))))))))), AltScreenBuffer) :: (((Npos (XO (XO (XO (XI (XI (XO (XO
+    (XO (XO (XO XH))))))))))), SaveCursor) :: (((Npos (XI (XO (XO (XI (XI (XO
+    (XO (XO (XO (XO XH))))))))))), SaveCursorAltScreenBuffer) :: []))))))))
+
+(** val ed_spec : param list -> func option **)
+
+let ed_spec ps =
+  let p = fun k -> pu16 ps k in
+  assoc_N (p O) ((N0, (Ed EdBelow)) :: (((Npos XH), (Ed EdAbove)) :: (((Npos
+    (XO XH)), (Ed EdAll)) :: (((Npos (XI XH)), (Ed EdSavedLines)) :: []))))
+
+(** val el_spec : param list -> func option **)
+
+let el_spec ps =
+  let p = fun k -> pu16 ps k in
+  assoc_N (p O) ((N0, (El ElToRight)) :: (((Npos XH), (El
+    ElToLeft)) :: (((Npos (XO XH)), (El ElAll)) :: [])))
+
+(** val ctc_spec : param list -> func option **)
+
+let ctc_spec ps =
+  let p = fun k -> pu16 ps k in
+  assoc_N (p O) ((N0, (Ctc CtcSet)) :: (((Npos (XO XH)), (Ctc
+    CtcClearCurrentColumn)) :: (((Npos (XI (XO XH))), (Ctc
+    CtcClearAll)) :: [])))
+
+(** val tbc_spec : param list -> func option **)
+
+let tbc_spec ps =
+  let p = fun k -> pu16 ps k in
+  assoc_N (p O) ((N0, (Tbc TbcCurrentColumn)) :: (((Npos (XI XH)), (Tbc
+    TbcAll)) :: []))
+
+(** val xtwinops_spec : param list -> func option **)
+
+let xtwinops_spec ps =
+  let p = fun k -> pu16 ps k in
+  if N.eqb (p O) (Npos (XO (XO (XO XH))))
+  then Some (Xtwinops (XtwinopsResize ((p (S (S O))), (p (S O)))))
+  else None
+
+(** val csi_plain : param list -> nat -> (n * func option) list **)
+
+let csi_plain ps cp =
+  let p = fun k -> pu16 ps k in
+  let all = firstn (S cp) ps in
+  ((Npos (XO (XO (XO (XO (XO (XO XH))))))), (Some (Ich (p O)))) :: (((Npos
+  (XI (XO (XO (XO (XO (XO XH))))))), (Some (Cuu (p O)))) :: (((Npos (XO (XI
+  (XO (XO (XO (XO XH))))))), (Some (Cud (p O)))) :: (((Npos (XI (XI (XO (XO
+  (XO (XO XH))))))), (Some (Cuf (p O)))) :: (((Npos (XO (XO (XI (XO (XO (XO
+  XH))))))), (Some (Cub (p O)))) :: (((Npos (XI (XO (XI (XO (XO (XO
+  XH))))))), (Some (Cnl (p O)))) :: (((Npos (XO (XI (XI (XO (XO (XO
+  XH))))))), (Some (Cpl (p O)))) :: (((Npos (XI (XI (XI (XO (XO (XO
+  XH))))))), (Some (Cha (p O)))) :: (((Npos (XO (XO (XO (XI (XO (XO
+  XH))))))), (Some (Cup ((p O), (p (S O)))))) :: (((Npos (XI (XO (XO (XI (XO
+  (XO XH))))))), (Some (Cht (p O)))) :: (((Npos (XO (XI (XO (XI (XO (XO
+  XH))))))), (ed_spec ps)) :: (((Npos (XI (XI (XO (XI (XO (XO XH))))))),
+  (el_spec ps)) :: (((Npos (XO (XO (XI (XI (XO (XO XH))))))), (Some (Il
+  (p O)))) :: (((Npos (XI (XO (XI (XI (XO (XO XH))))))), (Some (Dl
+  (p O)))) :: (((Npos (XO (XO (XO (XO (XI (XO XH))))))), (Some (Dch
+  (p O)))) :: (((Npos (XI (XI (XO (XO (XI (XO XH))))))), (Some (Su
+  (p O)))) :: (((Npos (XO (XO (XI (XO (XI (XO XH))))))), (Some (Sd
+  (p O)))) :: (((Npos (XI (XI (XI (XO (XI (XO XH))))))),
+  (ctc_spec ps)) :: (((Npos (XO (XO (XO (XI (XI (XO XH))))))), (Some (Ech
+  (p O)))) :: (((Npos (XO (XI (XO (XI (XI (XO XH))))))), (Some (Cbt
+  (p O)))) :: (((Npos (XO (XO (XO (XO (XO (XI XH))))))), (Some (Cha
+  (p O)))) :: (((Npos (XI (XO (XO (XO (XO (XI XH))))))), (Some (Cuf
+  (p O)))) :: (((Npos (XO (XI (XO (XO (XO (XI XH))))))), (Some (Rep
+  (p O)))) :: (((Npos (XO (XO (XI (XO (XO (XI XH))))))), (Some (Vpa
+  (p O)))) :: (((Npos (XI (XO (XI (XO (XO (XI XH))))))), (Some (Vpr
+  (p O)))) :: (((Npos (XO (XI (XI (XO (XO (XI XH))))))), (Some (Cup (
+  (p O), (p (S O)))))) :: (((Npos (XI (XI (XI (XO (XO (XI XH))))))),
+  (tbc_spec ps)) :: (((Npos (XO (XO (XO (XI (XO (XI XH))))))), (Some (Sm
+  (filter_map (fun q -> ansi_mode_spec (as_u16 q)) all)))) :: (((Npos (XO (XO
+  (XI (XI (XO (XI XH))))))), (Some (Rm
+  (filter_map (fun q -> ansi_mode_spec (as_u16 q)) all)))) :: (((Npos (XI (XO
+  (XI (XI (XO (XI XH))))))), (Some (Sgr (sgr_ops all)))) :: (((Npos (XO (XI
+  (XO (XO (XI (XI XH))))))), (Some (Decstbm ((p O), (p (S O)))))) :: (((Npos
+  (XI (XI (XO (XO (XI (XI XH))))))), (Some Scosc)) :: (((Npos (XO (XO (XI (XO
+  (XI (XI XH))))))), (xtwinops_spec ps)) :: (((Npos (XI (XO (XI (XO (XI (XI
+  XH))))))), (Some Scorc)) :: [])))))))))))))))))))))))))))))))))
+
+(** val csi_spec : param list -> nat -> n option -> n -> func option **)
+
+let csi_spec ps cp =
+  let all = firstn (S cp) ps in
+  (fun inter0 fin ->
+  match inter0 with
+  | Some i ->
+    if (&&) (N.eqb i (Npos (XI (XO (XO (XO (XO XH)))))))
+         (N.eqb fin (Npos (XO (XO (XO (XO (XI (XI XH))))))))
+    then Some Decstr
+    else if (&&) (N.eqb i (Npos (XI (XI (XI (XI (XI XH)))))))
+              (N.eqb fin (Npos (XO (XO (XO (XI (XO (XI XH))))))))
+         then Some (Decset
+                (filter_map (fun q -> dec_mode_spec (as_u16 q)) all))
+         else if (&&) (N.eqb i (Npos (XI (XI (XI (XI (XI XH)))))))
+                   (N.eqb fin (Npos (XO (XO (XI (XI (XO (XI XH))))))))
+              then Some (Decrst
+                     (filter_map (fun q -> dec_mode_spec (as_u16 q)) all))
+              else None
+  | None ->
+    (match assoc_N fin (csi_plain ps cp) with
+     | Some f -> f
+     | None -> None))
+
+(** val esc_spec : n option -> n -> func option **)
+
+let esc_spec inter0 fin =
+  match inter0 with
+  | Some i ->
+    if (&&) (N.eqb i (Npos (XI (XI (XO (XO (XO XH)))))))
+         (N.eqb fin (Npos (XO (XO (XO (XI (XI XH)))))))
+    then Some Decaln
+    else if N.eqb i (Npos (XO (XO (XO (XI (XO XH))))))
+         then Some (Gzd4
+                (if N.eqb fin (Npos (XO (XO (XO (XO (XI XH))))))
+                 then CsDrawing
+                 else CsAscii))
+         else if N.eqb i (Npos (XI (XO (XO (XI (XO XH))))))
+              then Some (G1d4
+                     (if N.eqb fin (Npos (XO (XO (XO (XO (XI XH))))))
+                      then CsDrawing
+                      else CsAscii))
+              else None
+  | None ->
+    if (&&) (N.leb (Npos (XO (XO (XO (XO (XO (XO XH))))))) fin)
+         (N.leb fin (Npos (XI (XI (XI (XI (XI (XO XH))))))))
+    then execute_spec (N.add fin (Npos (XO (XO (XO (XO (XO (XO XH))))))))
+    else if N.eqb fin (Npos (XI (XI (XI (XO (XI XH))))))
+         then Some Decsc
+         else if N.eqb fin (Npos (XO (XO (XO (XI (XI XH))))))
+              then Some Decrc
+              else if N.eqb fin (Npos (XI (XI (XO (XO (XO (XI XH)))))))
+                   then Some Ris
+                   else None
+
 (** val holds_C02_state : vt -> bool **)
 
 let holds_C02_state v =
@@ -9387,6 +9835,16 @@ let holds_C03_sgr f post =
   match f with
   | Sgr ops -> sgr_decode_ok ops post.vparser
   | _ -> true
+
+(** val spec_emit : parser0 -> n -> func option **)
+
+let spec_emit p c =
+  match (williams p.pst c).t_kind with
+  | KPrint -> Some (Print c)
+  | KExecute -> execute_spec c
+  | KEscDispatch -> esc_spec p.inter c
+  | KCsiDispatch -> csi_spec p.params p.cur_param p.inter c
+  | _ -> None
 
 (** val holds_C08 : vt -> func -> vt -> bool **)
 
